@@ -878,5 +878,6 @@ func init() {
 		})
 		c14BurstLeg(c)
 		c14SchedLeg(c)
+		c14EntryLeg(c) // every entry point reports the timeout (leg Ep, see c14entry.go)
 	})
 }
